@@ -43,6 +43,9 @@ def classify(v):
 
 POOL_I = [0, 1, 2, 3, 4, 5, 6, 126, 127, 128, 129, 255, 256, 2**32, 2**64 - 1, 2**63]
 POOL_B = [b"", b"a", b"ab", b"\x00", b"\xff" * 3, b'"', b"\\", b"a//b", b"x;y", b"hello world", b"TMPL_X", b"\n", b"0x61", b"\xc3\xa9"]
+# the same TEXT as a literal of another kind (method signature, template name, enum name, address, base64/base32/hex spelling):
+# the constant-block assembler must key constants by their value and kind, never by their spelling
+POOL_B += [b"f()void", b"g(uint64)uint64", b"a b", b"TMPL_A", b"TMPL_C", b"TMPL_D", b"NoOp", b"pay", b"YQ==", b"MFRGG", b"61", b"0x6162", b"appl"]
 ENUMS = ["NoOp", "OptIn", "CloseOut", "ClearState", "UpdateApplication", "DeleteApplication", "Payment", "KeyRegistration",
          "AssetConfig", "AssetTransfer", "AssetFreeze", "ApplicationCall", "Unknown"]
 
